@@ -1,0 +1,16 @@
+// Copyright 2024 The Go Authors. All rights reserved.
+// Use of this source code is governed by a BSD-style
+// license that can be found in the LICENSE file.
+
+//go:build !verif
+
+package zip
+
+import "os"
+
+// Simulation hook: the identity unless built with the "verif" tag
+// (see simhook_verif.go).
+
+func simListing(dir string, files []os.DirEntry, err error) ([]os.DirEntry, error) {
+	return files, err
+}
